@@ -46,8 +46,10 @@ def _m(live):
 
 
 def _fail(what, detail):
+    root = Cur.root if Cur.root is not None \
+        else model.from_spec(Cur.spec['root'])
     Cur.ctx.fail('C19:' + what, {'kind': 'tree', 'spec': Cur.spec},
-                 detail + ' | tree ' + model.show(Cur.root, 'wp'))
+                 detail + ' | tree ' + model.show(root, 'wp'))
 
 
 def _labels(lives):
